@@ -50,12 +50,15 @@ def src_files():
 
 # translator tie: which hand-written proof files sit on which generated file (compiled in this order)
 SRC_ORDER = ['GenPrim', 'GenWidthP', 'GenPrimP', 'GenDiv', 'GenDivP', 'GenLoopP', 'GenIterP', 'GenUint', 'GenUintP', 'GenMod', 'GenModP',
-             'GenShift', 'GenShiftP', 'GenMul', 'GenMulP', 'GenInt', 'GenIntP']
+             'GenShift', 'GenShiftP', 'GenMul', 'GenMulP', 'GenInt', 'GenIntP', 'GenDivLimb', 'GenDivLimbP', 'GenBits', 'GenBitsP', 'GenDivCt', 'GenDivCtP', 'GenMonty', 'GenMontyP', 'GenHex', 'GenHexP']
 _PRIM = ['GenPrim', 'GenWidthP', 'GenPrimP']
 _UINT = _PRIM + ['GenLoopP', 'GenUint', 'GenUintP']
-SRC_NEEDS = {'C02': _PRIM + ['GenDiv', 'GenDivP'], 'C03': _PRIM + ['GenLoopP', 'GenIterP', 'GenShift', 'GenMul', 'GenMulP'], 'C04': _UINT, 'C06': _UINT,
-             'C05': _PRIM + ['GenLoopP', 'GenIterP', 'GenShift', 'GenShiftP'], 'C07': _UINT + ['GenMod', 'GenModP'],
-             'C13': _UINT + ['GenInt', 'GenIntP']}
+SRC_NEEDS = {'C02': _PRIM + ['GenDiv', 'GenDivP', 'GenLoopP', 'GenIterP', 'GenUint', 'GenUintP', 'GenShift', 'GenShiftP', 'GenMul', 'GenMulP',
+                     'GenDivLimb', 'GenDivLimbP', 'GenBits', 'GenBitsP', 'GenDivCt', 'GenDivCtP'], 'C03': _PRIM + ['GenLoopP', 'GenIterP', 'GenShift', 'GenMul', 'GenMulP'], 'C04': _UINT, 'C06': _UINT,
+             'C05': _PRIM + ['GenLoopP', 'GenIterP', 'GenUint', 'GenUintP', 'GenShift', 'GenShiftP', 'GenBits', 'GenBitsP'], 'C07': _UINT + ['GenMod', 'GenModP'],
+             'C13': _UINT + ['GenInt', 'GenIntP'],
+             'C08': _UINT + ['GenIterP', 'GenMod', 'GenModP', 'GenShift', 'GenMul', 'GenMulP', 'GenMonty', 'GenMontyP'],
+             'C16': ['GenHex', 'GenHexP']}
 
 def src_tie(pid):
     """Translator tie (tools/rs2v.py): regenerate coq/Src/Gen*.v from REPO's current source, re-check the hand-written
